@@ -148,7 +148,9 @@ def task_matrix_to_lines(I):
 # ------------------------------------------------------------------ bounded: documents read back
 SCALES = (1, 2, 2.5, 10, 0.5, 3.3, 0.75, 1.5)
 COLOURS = [({}, None, None), (dict(dark='darkblue', light='#eeeeee'), (0, 0, 139), (238, 238, 238)), (dict(dark='#00ccd7'), (0, 204, 215), None),
-           (dict(dark=(0, 0, 139), light='yellow'), (0, 0, 139), (255, 255, 0)), (dict(dark='navy'), (0, 0, 128), None), (dict(dark='#ffff01', light='black'), (255, 255, 1), (0, 0, 0))]
+           (dict(dark=(0, 0, 139), light='yellow'), (0, 0, 139), (255, 255, 0)), (dict(dark='navy'), (0, 0, 128), None), (dict(dark='#ffff01', light='black'), (255, 255, 1), (0, 0, 0)),
+           # a light colour with the default / an explicit black dark colour: the modules must still be stroked in black
+           (dict(light='yellow'), (0, 0, 0), (255, 255, 0)), (dict(dark='black', light='#eeeeee'), (0, 0, 0), (238, 238, 238)), (dict(dark='#000', light='white'), (0, 0, 0), (255, 255, 255))]
 SVG_OPTS = [{}, dict(unit='mm'), dict(omitsize=True), dict(svgversion=1.1), dict(xmldecl=False, svgns=False, nl=False), dict(title='a<b>&"c', desc='d'),
             dict(svgclass='s', lineclass='l', svgid='i'), dict(draw_transparent=True)]
 
